@@ -1467,6 +1467,7 @@ int QSexact_solver (mpq_QSdata * p_mpq,
 	int last_status = 0, last_iter = 0;
 	QSbasis *basis = 0;
 	unsigned precision = EGLPNUM_PRECISION;
+	unsigned const entry_precision = EGLPNUM_PRECISION;
 	int rval = 0,
 	  it = QS_EXACT_MAX_ITER;
 	dbl_QSdata *p_dbl = 0;
@@ -1841,6 +1842,10 @@ CLEANUP:
 	mpq_QSfree_basis (basis);
 	dbl_QSfree_prob (p_dbl);
 	mpf_QSfree_prob (p_mpf);
+	/* the precision ladder is local to this call: give the caller back the
+	 * working precision it had set */
+	if (EGLPNUM_PRECISION != entry_precision)
+		QSexact_set_precision (entry_precision);
 	return rval;
 }
 
